@@ -1,7 +1,11 @@
 // life.go: extensions of the shim used by the C02/C03 harnesses (hread, hlife). Add-only.
 package vsys
 
-import "syscall"
+import (
+	"sync/atomic"
+	"syscall"
+	"time"
+)
 
 // ReadHook, when set, is called after every read/recvfrom on a *virtual* descriptor, on the calling
 // goroutine, once the answer is determined and before it is returned to nbio. It may park the
@@ -88,4 +92,46 @@ func (v *VFD) IsClosed() bool {
 	v.mu.Lock()
 	defer v.mu.Unlock()
 	return v.Closed
+}
+
+// InjectPatient is InjectTimeout with a one-sided bound: the poller is declared stuck (false) only after it failed to come
+// back during `healthy` of time in which this PROCESS was demonstrably scheduled — a canary goroutine that sleeps 1 ms
+// per round must have made at least a quarter of its rounds in a second for that second to count. On a starved machine
+// the wait simply gets longer (absolute cap: 20 x healthy).
+func InjectPatient(epfd int, evs []syscall.EpollEvent, healthy time.Duration) bool {
+	done := InjectAsync(epfd, evs)
+	select { // the common case: no canary needed
+	case <-done:
+		return true
+	case <-time.After(200 * time.Millisecond):
+	}
+	var rounds int64
+	stop := make(chan struct{})
+	defer close(stop)
+	go func() {
+		for {
+			select {
+			case <-stop:
+				return
+			default:
+			}
+			time.Sleep(time.Millisecond)
+			atomic.AddInt64(&rounds, 1)
+		}
+	}()
+	var good time.Duration
+	t0 := time.Now()
+	for good < healthy && time.Since(t0) < 20*healthy {
+		r0, w0 := atomic.LoadInt64(&rounds), time.Now()
+		select {
+		case <-done:
+			return true
+		case <-time.After(time.Second):
+		}
+		el := time.Since(w0)
+		if r := atomic.LoadInt64(&rounds) - r0; r*4 >= int64(el/time.Millisecond) && el < 2*time.Second {
+			good += el
+		}
+	}
+	return false
 }
